@@ -113,8 +113,8 @@ Fixpoint upto_last_slash (p : bytes) : option bytes :=
       end
   end.
 
-(* Uri::addRelativePath(relUrl). NOTE: unlike path(p) it does not call touch(): the cached absolute_ /
-   absolutePath_ of the object survive the path change. *)
+(* Uri::addRelativePath(relUrl): URNs are returned untouched; otherwise the path is merged and touch() clears the
+   cached absolute_ / absolutePath_ (since the repair "Uri::addRelativePath() left stale cached absolute forms behind") *)
 Definition uri_add_relative_path (rel : bytes) (u : uri) : uri :=
   if u_urn u then u
   else
@@ -122,7 +122,7 @@ Definition uri_add_relative_path (rel : bytes) (u : uri) : uri :=
              | None => [SLASH] ++ rel
              | Some q => q ++ rel
              end in
-    mkUri (u_front u) (u_httpx u) (u_urn u) p (u_abs_cache u) (u_abspath_cache u).
+    mkUri (u_front u) (u_httpx u) (u_urn u) p [] [].
 
 (* urlIsRelative *)
 Fixpoint first_segment_has_no_colon (u : bytes) : bool :=
